@@ -221,3 +221,32 @@ func verifH_C19_discriminator() {
 	verifCheckLeaks(s, o, "discriminated value")
 	verifReach("end")
 }
+
+//verif:harness id=C19 tier=quick,thorough witness=end,rejected bounds="opt-in and user-defined string formats: ipv4 / ipv6 (DefineIPv4Format, DefineIPv6Format), a user regexp format (DefineStringFormat) and a user callback format whose own error is opaque; values = concrete texts chosen to fail each validator in each of its ways (not an address, the other address family, non-matching) plus a symbolic marker; modes as in the other C19 harnesses; no Reason and no reason-only Error() contains the value"
+func verifH_C19_optin_formats() {
+	verifMarkerReset()
+	DefineIPv4Format()
+	DefineIPv6Format()
+	DefineStringFormat("verif-re", `^[a-c]+$`)
+	DefineStringFormatCallback("verif-cb", func(string) error { return errors.New("rejected by callback") })
+	format := []string{"ipv4", "ipv6", "verif-re", "verif-cb"}[verifChoose("format", 4)]
+	var v string
+	switch k := verifChoose("value", 7); k {
+	case 0:
+		if format == "ipv4" || format == "ipv6" {
+			v = "~`~" // address parsing runs natively: concrete text only
+			verifMarkers = append(verifMarkers, v)
+		} else {
+			v = verifMarker("v")
+		}
+	default:
+		v = []string{"", "fe80::1:2", "2001:db8::ff00:42:8329", "192.168.100.200", "10.0.0.300", "::ffff:192.168.100.200", "fe80::1:2%eth0"}[k]
+		verifMarkers = append(verifMarkers, v)
+	}
+	s := &Schema{Type: &Types{"string"}, Format: format}
+	verifCheckLeaks(s, v, "format "+format)
+	// the same below an object property and an array item
+	verifCheckLeaks(&Schema{Type: &Types{"object"}, Properties: Schemas{"p": &SchemaRef{Value: s}}}, map[string]any{"p": v}, "format "+format+" in a property")
+	verifCheckLeaks(&Schema{Type: &Types{"array"}, Items: &SchemaRef{Value: s}}, []any{v}, "format "+format+" in an item")
+	verifReach("end")
+}
